@@ -321,7 +321,8 @@ def met_from_spec(spec):
         base += 0.25 * a.size + 500.0
         fields[n] = a
     return {'kind': kind, 'nx': nx, 'ny': ny, 'nz': nz, 'times': met_times(spec),
-            'fields': fields, 'lstagger': spec.get('lstagger', 0)}
+            'fields': fields, 'lstagger': spec.get('lstagger', 0),
+            'nostagger': bool(spec.get('nostagger'))}
 
 
 def _tagged(h, d, arr):
@@ -350,7 +351,11 @@ def encode_met(m):
                 recs.append(_tagged(h, d, f['HGHT'][ti, k]))
                 recs.append(_tagged(h, d, f['PRES'][ti, k]))
         elif kind == 'wind':
-            recs.append(pack_record(struct.pack('>fii', h, yyjjj(d), m['lstagger'])))
+            if m.get('nostagger'):
+                # older wind files: the time record carries hour and date only
+                recs.append(pack_record(struct.pack('>fi', h, yyjjj(d))))
+            else:
+                recs.append(pack_record(struct.pack('>fii', h, yyjjj(d), m['lstagger'])))
             for k in range(m['nz']):
                 recs.append(pack_record(np.asarray(f['U'][ti, k], dtype='>f4').tobytes()))
                 recs.append(pack_record(np.asarray(f['V'][ti, k], dtype='>f4').tobytes()))
@@ -557,8 +562,9 @@ def encode_cloud_rain(m):
 def decode_cloud_rain(buf):
     recs = walk(buf)
     p = recs[0][1]
-    if len(p) < 12:
-        raise RecordError('cloud/rain header record of %d bytes' % len(p))
+    if len(p) != 32:
+        # character*20 header text + three integers
+        raise RecordError('cloud/rain header record of %d bytes (the layout has 32)' % len(p))
     nx, ny, nz = struct.unpack('>iii', p[-12:])
     cldhdr = p[:-12].decode('ascii')
     per = 1 + nz * 5
